@@ -260,6 +260,39 @@ theorem C05_request_of_op (proto : Ops.Proto) (rid : Int) (oids scalars reps : L
   obtain ⟨h0, h1, _, h3, h5, _⟩ := pdu_tag_facts
   refine ⟨rfl, rfl, rfl, rfl, h0, h1, h3, h5⟩
 
+
+/-- **The discovery probe.**  What `send_discovery_message` emits for message id `rid` is read by the
+    independent reader as the RFC 3414 section 4 discovery request: message id `rid`, msgMaxSize 65507,
+    flags = reportable only (generated `V3Flags.__bytes__`), security model 3, zero-length engine id,
+    boots = time = 0, zero-length user name and parameters, and a plain scoped PDU with empty
+    context fields holding a GetRequest with request-id `rid`, zero error fields and no bindings. -/
+theorem C05_discovery_probe (rid : Int) (dg : Bytes) (he : Emit.probe rid = some dg) (hs : Small dg.length) :
+    ∃ c, readV3Msg dg = some ⟨rid, 65507, 4, 3, [], 0, 0, [], [], [], 48, c⟩ ∧
+      readScoped c = some ⟨[], [], ⟨160, rid, 0, 0, []⟩⟩ := by
+  obtain ⟨h0, _⟩ := pdu_tag_facts
+  unfold Emit.probe Emit.v3Plain at he
+  cases hsb : Emit.scopedBytes (Emit.probeParams rid) ⟨.get, rid, 0, 0, []⟩ with
+  | none => simp [hsb] at he
+  | some sb =>
+    simp only [hsb, Option.map_some, Option.some.injEq] at he
+    have hle : sb.length ≤ dg.length := by
+      rw [← he]
+      simp only [Emit.v3Around, encodeV3Msg, Ber.tlv, List.length_cons, List.length_append]
+      omega
+    obtain ⟨c, hc, hread⟩ := C05_v3_scoped (Emit.probeParams rid) ⟨.get, rid, 0, 0, []⟩
+      (by intro vb hvb; simp at hvb) sb hsb (Small.mono hle hs)
+    refine ⟨c, ?_, ?_⟩
+    · rw [← he, hc]
+      have := C05_v3_request (Emit.probeParams rid) 48 c (by rw [← hc, he]; exact hs)
+      rw [this]
+      simp only [Emit.probeParams]
+      have hm : (Gen.messageMaxSize : Int) = 65507 := by decide
+      have hf : (Gen.flagsEncode false false true).toNat = 4 := by decide
+      rw [hf]
+      simp [hm]
+    · rw [hread]
+      simp only [Emit.probeParams, Emit.pduClass, h0]
+
 /- non-vacuity: the hypotheses are met by an ordinary request -/
 example : ReqOk [([1, 3, 6, 1, 2, 1], .null), ([1, 3, 6, 1, 4, 1, 4294967295], .str [104, 105])] := by
   intro vb hvb
